@@ -958,6 +958,34 @@ class Engine:
         trips = None
         if N is not None and start is not None:
             trips = N - start
+        # pointer walk: `for(; p != e; p++)` / `while(p != e) { ..; p++; }` where e is a local defined once as `p + N` before the loop and p
+        # is advanced exactly once per round: N rounds (the counter form of the same loop)
+        if trips is None and cond is not None and strip(cond).get('k') == 'BinaryOperator' and strip(cond)['op'] in ('!=', '<'):
+            c = strip(cond)
+            pl, pe = strip(c['l']), strip(c['r'])
+            if pl.get('k') == 'DeclRefExpr' and pe.get('k') == 'DeclRefExpr' and (pl.get('t') or {}).get('p') and (pe.get('t') or {}).get('p'):
+                e_def = single_defs(self.fn.d).get(pe.get('id'))
+                e0 = strip(e_def) if e_def is not None else None
+                steps = []
+                for x in walk([body, inc]):
+                    if isinstance(x, dict):
+                        ap = assign_parts_raw(x)
+                        if ap and strip(ap[0]).get('id') == pl.get('id'):
+                            steps.append('+=1' if (ap[2] == '+=' and const_of(ap[1]) == 1) else 'other')
+                        elif is_incdec(x) and strip(x['e']).get('id') == pl.get('id'):
+                            steps.append('+=1' if x['op'] == '++' else 'other')
+                # p is written nowhere else in the function (it still holds the value it had when e was computed)
+                all_writes = 0
+                for x in walk(self.fn.tree):
+                    if isinstance(x, dict):
+                        ap = assign_parts_raw(x)
+                        if (ap and strip(ap[0]).get('id') == pl.get('id')) or (is_incdec(x) and strip(x['e']).get('id') == pl.get('id')):
+                            all_writes += 1
+                if e0 is not None and e0.get('k') == 'BinaryOperator' and e0.get('op') == '+' and strip(e0['l']).get('id') == pl.get('id') and steps == ['+=1'] and all_writes == 1 \
+                        and (k != 'ForStmt' or s.get('init') is None):
+                    n_ = self.ev(e0['r'], st)
+                    if n_ is not None:
+                        trips = n_
         # 1. small constant loop: unroll
         if trips is not None and trips.is_const() and 0 <= trips.cval() <= self.max_unroll:
             cur = [st]
